@@ -3067,9 +3067,9 @@ Proof.
   apply (pm_cs k F P). apply H; [exact Hin0|]. rewrite <- Hk. symmetry. apply (pm_key k F P).
 Qed.
 
-Theorem detach_step_safe_sound g k : FlagInv_safe g -> FlagInv_safe (detach_step g k).
+Theorem detach_step_with_safe_sound w g k : FlagInv_safe g -> FlagInv_safe (detach_step_with w g k).
 Proof.
-  intros HF. unfold detach_step. destruct (find_step g k) as [s0|]; [|exact HF].
+  intros HF. unfold detach_step_with. destruct (find_step g k) as [s0|]; [|exact HF].
   set (g2 := match s_creator s0 with
              | Some _ => _
              | None => g end).
@@ -3084,9 +3084,9 @@ Proof.
   apply (place_rel_safe_sound k g); [| |exact HF].
   - eapply place_rel_trans; [exact R2|].
     eapply place_rel_trans; [apply place_rel_flag_with_products|].
-    unfold flag_after_sources. apply place_rel_flag_keys.
+    unfold flag_after_sources, flag_after_sources_with. apply place_rel_flag_keys.
   - apply (place_rel_keeps_flag k (flag_with_products g2 k)).
-    + unfold flag_after_sources. apply place_rel_flag_keys.
+    + unfold flag_after_sources, flag_after_sources_with. apply place_rel_flag_keys.
     + apply flag_with_products_flags.
 Qed.
 
@@ -3350,10 +3350,10 @@ Proof.
   eapply rrel_sound; [apply rrel_undefer | exact H].
 Qed.
 
-Theorem detach_step_ready_sound g k :
-  In (FReady, TConsumersOfSelf) trg_node_detached -> FlagInv_ready g -> FlagInv_ready (detach_step g k).
+Theorem detach_step_with_ready_sound w g k :
+  In (FReady, TConsumersOfSelf) trg_node_detached -> FlagInv_ready g -> FlagInv_ready (detach_step_with w g k).
 Proof.
-  intros Htrg HF. unfold detach_step. destruct (find_step g k) as [s0|]; [|exact HF].
+  intros Htrg HF. unfold detach_step_with. destruct (find_step g k) as [s0|]; [|exact HF].
   set (g2 := match s_creator s0 with Some _ => _ | None => g end).
   assert (H2 : FlagInv_ready g2).
   { unfold g2. destruct (s_creator s0); [|exact HF].
@@ -3363,7 +3363,7 @@ Proof.
     { eapply rrel_sound; [apply rrel_set_place|]. apply set_detached_nodes_ready_sound; assumption. }
     destruct (s_detached s0); [exact H1|]. apply set_detached_nodes_ready_sound; assumption. }
   eapply rrel_sound; [|exact H2].
-  eapply rrel_trans; [apply rrel_flag_with_products|]. unfold flag_after_sources. apply rrel_flag_keys.
+  eapply rrel_trans; [apply rrel_flag_with_products|]. unfold flag_after_sources, flag_after_sources_with. apply rrel_flag_keys.
 Qed.
 
 Theorem reattach_step_ready_sound g k c cdet :
@@ -3896,14 +3896,16 @@ Proof.
   - eapply drel_phi_ext; [| |apply drel_refl]; reflexivity.
 Qed.
 
-Theorem detach_step_need_sound g k :
+(* for ANY sources query whose WHERE conjuncts are all total (hold of every attached producer step) *)
+Theorem detach_step_with_need_sound w g k :
+  forallb cas_atom_total w = true ->
   WF g ->
   (forall f, In f (g_files g) -> f_key f <> k) ->
   (forall d f, In d (g_deps g) -> find_file g (d_snk d) = Some f ->
      mem_N (f_key f) (k :: below g k) = true -> mem_N (d_src d) (k :: below g k) = true) ->
-  FlagInv_need g -> FlagInv_need (detach_step g k).
+  FlagInv_need g -> FlagInv_need (detach_step_with w g k).
 Proof.
-  intros Hwf Hnofile Hout HF. unfold detach_step.
+  intros Hw Hwf Hnofile Hout HF. unfold detach_step_with.
   destruct (find_step g k) as [s0|] eqn:E0; [|exact HF].
   pose proof (detach_stage_drel g k s0 E0) as R2. cbv zeta in R2.
   set (g2 := match s_creator s0 with Some _ => _ | None => g end) in *.
@@ -3912,8 +3914,8 @@ Proof.
                          (fun x d => if mem_N x (detach_set g k) then true else d) g gX).
   { eapply drel_phi_ext; [| |eapply drel_trans; [exact R2 | apply drel_flag_with_products]]; reflexivity. }
   assert (RF : drel_ex k (fun x d => if mem_N x (detach_set g k) then true else d)
-                         (fun x d => if mem_N x (detach_set g k) then true else d) g (flag_after_sources gX k)).
-  { unfold flag_after_sources.
+                         (fun x d => if mem_N x (detach_set g k) then true else d) g (flag_after_sources_with w gX k)).
+  { unfold flag_after_sources_with.
     eapply drel_phi_ext; [| |eapply drel_trans; [exact RX | apply drel_flag_keys]]; reflexivity. }
   destruct RF as [F [H [O R]]].
   assert (Hsub : forall x, mem_N x (detach_set g k) = true -> mem_N x (k :: below g k) = true).
@@ -3938,36 +3940,106 @@ Proof.
       rewrite mem_single in Hmy. apply N.eqb_eq in Hmy.
       assert (Es : sy = s0) by (rewrite <- Eky, <- Ey, Hmy in Ef; congruence).
       congruence. }
-    unfold flag_after_sources in Hr'.
+    unfold flag_after_sources_with in Hr'.
     apply (flag_keys_rows FAfter _ gX r' Hr').
-    apply mem_N_In. apply filter_In. split.
-    + apply in_flat_map. exists y. split.
-      * destruct RX as [FX [HX [OX RX]]].
-        rewrite (step_subtree_drel k _ _ g gX (ex_intro _ FX (ex_intro _ HX (ex_intro _ OX RX)))).
-        apply in_step_subtree; [exists sy; split; [exact Hsy | congruence] | rewrite <- Hcase; exact Hmy].
-      * destruct RX as [FX [HX [OX RX]]]. unfold producers_of_node. rewrite (dr_deps RX).
-        apply in_flat_map. exists (d_src d2). split.
-        -- apply in_map_iff. exists d2. split; [reflexivity|]. apply filter_In. split; [exact Hd2|].
+    apply mem_N_In. unfold cas_sources. apply in_flat_map. exists y. split.
+    + destruct RX as [FX [HX [OX RX]]].
+      rewrite (step_subtree_drel k _ _ g gX (ex_intro _ FX (ex_intro _ HX (ex_intro _ OX RX)))).
+      apply in_step_subtree; [exists sy; split; [exact Hsy | congruence] | rewrite <- Hcase; exact Hmy].
+    + destruct RX as [FX [HX [OX RX]]].
+      assert (Efp : find_step gX (s_key p) = option_map FX (find_step g (s_key p))).
+      { apply (find_step_drel k _ _ g gX FX HX OX _ RX). }
+      apply in_flat_map. exists (d_src d2). split.
+      * unfold producers_of_node. rewrite (dr_deps RX).
+        apply in_map_iff. exists d2. split; [reflexivity|]. apply filter_In. split; [exact Hd2|].
+        apply N.eqb_eq. congruence.
+      * apply filter_In. split.
+        -- unfold producers_of_node. rewrite (dr_deps RX).
+           apply in_map_iff. exists d1. split; [congruence|]. apply filter_In. split; [exact Hd1|].
            apply N.eqb_eq. congruence.
-        -- apply in_map_iff. exists d1. split; [congruence|]. apply filter_In. split; [exact Hd1|].
-           apply N.eqb_eq. congruence.
-    + destruct RX as [FX [HX [OX RX]]]. rewrite Hkr.
-      rewrite (find_step_drel k _ _ g gX FX HX OX _ RX), (find_step_in g p Hwf Hp). cbn [option_map].
-      rewrite (dr_sdet RX), Hmp, Hdp. reflexivity.
+        -- apply forallb_forall. intros a Ha.
+           pose proof (proj1 (forallb_forall _ _) Hw a Ha) as Ht.
+           rewrite Hkr.
+           destruct a; cbn [cas_atom_total] in Ht; try discriminate Ht; cbn [cas_atom_holds].
+           ++ rewrite Efp, (find_step_in g p Hwf Hp). reflexivity.
+           ++ unfold node_detached. rewrite Efp, (find_step_in g p Hwf Hp). cbn [option_map].
+              rewrite (dr_sdet RX), Hmp, Hdp. reflexivity.
 Qed.
 
-(* with the repository's node-detached trigger *)
+Theorem detach_step_need_sound g k :
+  forallb cas_atom_total cas_where = true ->
+  WF g ->
+  (forall f, In f (g_files g) -> f_key f <> k) ->
+  (forall d f, In d (g_deps g) -> find_file g (d_snk d) = Some f ->
+     mem_N (f_key f) (k :: below g k) = true -> mem_N (d_src d) (k :: below g k) = true) ->
+  FlagInv_need g -> FlagInv_need (detach_step g k).
+Proof. apply detach_step_with_need_sound. Qed.
+
+Theorem detach_step_safe_sound g k : FlagInv_safe g -> FlagInv_safe (detach_step g k).
+Proof. apply detach_step_with_safe_sound. Qed.
+Theorem detach_step_ready_sound g k :
+  In (FReady, TConsumersOfSelf) trg_node_detached -> FlagInv_ready g -> FlagInv_ready (detach_step g k).
+Proof. apply detach_step_with_ready_sound. Qed.
+
+(* Step.detach with ANY sources query (RECURSIVE_CHECK_AFTER_SOURCES) whose WHERE conjuncts are total *)
+Theorem detach_step_with_sound w g k :
+  forallb cas_atom_total w = true ->
+  WF g ->
+  (forall f, In f (g_files g) -> f_key f <> k) ->
+  (forall d f, In d (g_deps g) -> find_file g (d_snk d) = Some f ->
+     mem_N (f_key f) (k :: below g k) = true -> mem_N (d_src d) (k :: below g k) = true) ->
+  FlagInv g -> FlagInv (detach_step_with w g k).
+Proof.
+  intros Hw Hwf Hnf Hout [HFs [HFn HFr]]. split; [|split].
+  - apply detach_step_with_safe_sound. exact HFs.
+  - apply detach_step_with_need_sound; assumption.
+  - apply detach_step_with_ready_sound; [apply has_stmt_In; vm_compute; reflexivity | exact HFr].
+Qed.
+
+(* with the repository's node-detached trigger and the repository's sources query (generated cas_where) *)
 Theorem detach_step_sound_repo g k :
   WF g ->
   (forall f, In f (g_files g) -> f_key f <> k) ->
   (forall d f, In d (g_deps g) -> find_file g (d_snk d) = Some f ->
      mem_N (f_key f) (k :: below g k) = true -> mem_N (d_src d) (k :: below g k) = true) ->
   FlagInv g -> FlagInv (detach_step g k).
+Proof. apply detach_step_with_sound. vm_compute. reflexivity. Qed.
+
+(* A sources query that leaves a producer alone while another attached node still consumes the file
+   (conjunct CasNoOtherAttachedConsumer; "that file keeps its source step needed") is NOT sound:
+   plan (1) -> q (4) -> C (3, DEFAULT); plan -> P (2, OPTIONAL, PENDING) -> f (10) -> C and -> O (5, OPTIONAL,
+   unneeded).  P._implied_need = DEFAULT through C.  Detaching C leaves P unflagged because O still consumes
+   f; after the metadata updates P keeps DEFAULT and is in the dispatch set although nothing needs it. *)
+Definition cas_skip_shared : list cas_atom := [CasSrcIsStep; CasSrcAttached; CasNoOtherAttachedConsumer].
+Definition g_cas : graph :=
+  mkGraph [wstep 1 22 34 None true 34 false false false;
+           wstep 2 21 31 (Some 1) true 32 false false false;
+           set_ready (wstep 3 21 32 (Some 4) true 32 false false false) false false;
+           wstep 4 22 34 (Some 1) true 34 false false false;
+           set_ready (wstep 5 21 31 (Some 1) true 31 false false false) false false]
+          [mkFile 10 [102] 15 false (Some 2) false] [mkOnode 0 false None]
+          [mkDep 2 10 false; mkDep 10 3 false; mkDep 10 5 false] [] [] [] 31.
+
+Theorem detach_skip_shared_refuted :
+  exists g k, WF g /\ Acyclic g /\ AllCorrect g /\ HasHashInv g /\ prim_ok_b g (PDetach k) = true /\
+    ~ FlagInv_need (detach_step_with cas_skip_shared g k) /\
+    exists g', update_meta (detach_step_with cas_skip_shared g k) = Some g' /\
+      ~ AllCorrect g' /\ exists s, In s (dispatch_set g') /\ eligible_spec g' s = false.
 Proof.
-  intros Hwf Hnf Hout [HFs [HFn HFr]]. split; [|split].
-  - apply detach_step_safe_sound. exact HFs.
-  - apply detach_step_need_sound; assumption.
-  - apply detach_step_ready_sound; [apply has_stmt_In; vm_compute; reflexivity | exact HFr].
+  exists g_cas, 3.
+  split; [apply wf_refl; vm_compute; reflexivity|].
+  split; [split; [exists (fun k => if k =? 1 then 0%nat else if k =? 3 then 2%nat else 1%nat); apply creator_rank_refl
+                 | exists (fun k => if k =? 2 then 1%nat else 0%nat); apply need_rank_refl]; vm_compute; reflexivity|].
+  split; [apply allcorrect_refl; vm_compute; reflexivity|].
+  split; [apply has_hash_inv_refl; vm_compute; reflexivity|].
+  split; [vm_compute; reflexivity|].
+  split.
+  - intros H. apply flaginv_need_refl in H. vm_compute in H. discriminate.
+  - exists (the (update_meta (detach_step_with cas_skip_shared g_cas 3)) g_cas).
+    split; [vm_compute; reflexivity|].
+    split.
+    + intros H. apply allcorrect_refl in H. vm_compute in H; discriminate.
+    + apply starts_ineligible_refl. vm_compute; reflexivity.
 Qed.
 
 Theorem reattach_step_sound_repo g k c cdet :
@@ -4149,7 +4221,7 @@ Proof. intros [F [E P]]. eapply same_keys_map; [exact E | apply P]. Qed.
 
 Lemma detach_step_place_rel g k : place_rel k g (detach_step g k).
 Proof.
-  unfold detach_step. destruct (find_step g k) as [s0|]; [|apply place_rel_refl].
+  unfold detach_step, detach_step_with. destruct (find_step g k) as [s0|]; [|apply place_rel_refl].
   set (g2 := match s_creator s0 with Some _ => _ | None => g end).
   assert (R2 : place_rel k g g2).
   { unfold g2. destruct (s_creator s0); [|apply place_rel_refl].
@@ -4161,7 +4233,7 @@ Proof.
     eapply place_rel_trans; [exact R1 | apply place_rel_set_detached]. }
   eapply place_rel_trans; [exact R2|].
   eapply place_rel_trans; [apply place_rel_flag_with_products|].
-  unfold flag_after_sources. apply place_rel_flag_keys.
+  unfold flag_after_sources, flag_after_sources_with. apply place_rel_flag_keys.
 Qed.
 
 Lemma reattach_step_place_rel g k c cdet : place_rel k g (reattach_step g k c cdet).
